@@ -101,7 +101,12 @@ func (d *Document) extendOpenedStyles(existing []byte) []byte {
 	current := marshalledStyles(d.styleManager)
 	changed := make(map[string]bool)
 	for id, form := range current {
-		if before, ok := d.stylesAtOpen.registry[id]; !ok || before != form {
+		// 与部件中现有的定义比较：之前的保存已经写入过的样式以写入时的形式为准，否则以打开时的形式为准
+		before, ok := d.stylesWritten[id]
+		if !ok {
+			before, ok = d.stylesAtOpen.registry[id]
+		}
+		if !ok || before != form {
 			changed[id] = true
 		}
 	}
@@ -151,6 +156,14 @@ func (d *Document) extendOpenedStyles(existing []byte) []byte {
 	}
 	if len(write) == 0 {
 		return existing
+	}
+	for id := range changed {
+		if form, ok := current[id]; ok && write[id] != nil {
+			if d.stylesWritten == nil {
+				d.stylesWritten = make(map[string]string)
+			}
+			d.stylesWritten[id] = form
+		}
 	}
 	return layout.splice(existing, write)
 }
